@@ -129,7 +129,7 @@ func capSeconds(tier string) float64 {
 	if tier == "quick" {
 		return 240
 	}
-	return 3000
+	return 5400
 }
 
 func seedOf() int64 {
